@@ -91,6 +91,8 @@ def gen(rng, tier, ctx):
     fam = rng.choices(fams, weights)[0]
     spec = gen_family(rng, fam)
     spec["family"] = fam
+    # one expression object per written term, or one shared object for all occurrences of the same term
+    spec["share_terms"] = rng.random() < 0.3
     return spec
 
 
